@@ -376,12 +376,44 @@ def check(model: Model, run: Run) -> None:
                 eqs(v, True)
     has_attr = frozenset(('$C.attributes.index()', '$R.attributes.index()')) in decided
     has_nh = frozenset(('$C.nexthop.index()', '$R.nexthop.index()')) in decided
+    # routes whose index() is assembled from some of their fields (Label, IPVPN: the label stack is left out) can differ
+    # although their indexes agree: for those the answer needs a comparison of the NLRI beyond its index
+    NLRI_BASE = 'exabgp.bgp.message.update.nlri.nlri.NLRI'
+    by_parts = []
+    seen_index: set[str] = set()
+    for qn, ci in sorted(model.classes.items()):
+        if not model.is_subclass(qn, NLRI_BASE):
+            continue
+        m = model.effective(qn, 'index')
+        if m is None or m.qualname in seen_index:
+            continue
+        seen_index.add(m.qualname)
+        rets = [r.value for r in walk_no_nested(m.node) if isinstance(r, ast.Return) and r.value is not None]
+        ml = Loc(model, m)
+        texts = []
+        for r in rets:
+            t = ml.expand(r)
+            for nm in {x.id for x in ast.walk(r) if isinstance(x, ast.Name)}:
+                t += ' ; ' + ' ; '.join(ml.expand(v) for v in ml.values(nm))
+            texts.append(t)
+        whole = all(re.search(r'self\._packed(?!\[)|self\.pack_nlri\(|^\w+\.index\(self\)( ;|$)', t) for t in texts)
+        if rets and not whole:
+            by_parts.append(m.qualname)
+    run.extra['index_assembled_from_parts'] = [short(q) for q in by_parts]
+    has_wire = False
+    for pair in decided:
+        if len(pair) != 2:
+            continue
+        a_, b_ = sorted(pair)
+        if a_.startswith('$C.nlri.') and b_.startswith('$R.nlri.') and a_[2:] == b_[2:] and a_[len('$C.nlri.'):] not in ('index()', 'prefix_index()'):
+            has_wire = True
     true_rets = [r for r in walk_no_nested(ic.node) if isinstance(r, ast.Return) and folder.fold(r.value, ic.module, ic.cls) is True]
     last_cmp = max((n.lineno for n in exits), default=0)
     if len(cvars) != 1:
         run.cannot('Cache.in_cache: lookup of the cached route in self._seen by the route index not found (shape not understood)')
     run.check(has_attr, ic.qualname, 'different attributes -> not in cache', ic.loc(), 'a route whose attributes changed must be re-announced')
     run.check(has_nh, ic.qualname, 'different next hop -> not in cache', ic.loc(), 'a route whose next hop changed must be re-announced')
+    run.check(has_wire or not by_parts, ic.qualname, 'same index but different NLRI bytes -> not in cache', ic.loc(), 'index() of %s leaves fields out (the label stack): the same prefix announced again with another label has the same index, attributes and next hop, is answered "already sent" and never reaches the peer' % ', '.join(short(q) for q in by_parts))
     run.check(all(r.lineno > last_cmp for r in true_rets), ic.qualname, 'no `return True` before the comparisons', ic.loc(true_rets[0]) if true_rets else ic.loc(), 'no early "already sent" answer')
     run.check(len(cvars) == 1, ic.qualname, 'looked up in self._seen by route.index()', ic.loc(), 'lookup key must be the route index')
 
